@@ -153,8 +153,11 @@ func init() {
 					simrt.WaitUntil("ready", func() bool { return ready })
 					n := 2 + w.T.Choose(6, "nops")
 					for j := 0; j < n; j++ {
+						// (after the entity was removed the application may go on using its heartbeat
+						// manager, and may remove the entity once more: every removal that returns ends
+						// the heartbeat)
 						if d.removed {
-							return
+							w.Probe("c16-operation-after-entity-removal")
 						}
 						switch k := w.T.Choose(12, "hb-op"); {
 						case k < 2 && i == 0 && j == 0 || k < 1:
